@@ -51,7 +51,7 @@ def validate_attributes(attributes, namespace, whitelist):
             )
 
 
-def convert_data_attributes(ns_attrs, attrs, namespaces) -> None:
+def convert_data_attributes(ns_attrs, attrs, namespaces, drop_ns=None) -> None:
     d = 0
     for i, attr in list(enumerate(attrs)):
         name = attr['name']
@@ -60,7 +60,11 @@ def convert_data_attributes(ns_attrs, attrs, namespaces) -> None:
             if '-' not in name:
                 continue
             prefix, name = name.split('-', 1)
-            ns_attrs[namespaces[prefix], name] = attr['value']
+            ns = namespaces.get(prefix)
+            if ns is None or (drop_ns is not None and ns not in drop_ns):
+                # An ordinary data attribute
+                continue
+            ns_attrs[ns, name] = attr['value']
             attrs.pop(i - d)
             d += 1
 
@@ -175,7 +179,9 @@ class MacroProgram(ElementProgram):
 
         if self.enable_data_attributes:
             attrs = list(attrs)
-            convert_data_attributes(ns, attrs, start['ns_map'])
+            convert_data_attributes(
+                ns, attrs, start['ns_map'], self.DROP_NS
+            )
 
         for (prefix, attr), encoded in tuple(ns.items()):
             if prefix == TAL or prefix == METAL:
